@@ -660,7 +660,7 @@ pub fn rw_permute(p: &Program, rng: &mut Rng) -> Option<(Program, Applied)> {
 /// (7) move a dependency-closed set of main-module declarations into a new module imported with a fresh qualifier.
 pub fn rw_move(p: &Program, rng: &mut Rng) -> Option<(Program, Applied)> {
     let main_decls: Vec<DeclId> = (0..p.decls.len()).filter(|d| p.decls[*d].module == 0).collect();
-    if main_decls.is_empty() || p.modules.iter().any(|m| m.file == "moved.oal") {
+    if main_decls.is_empty() || p.modules.iter().any(|m| m.file.ends_with("moved.oal")) {
         return None;
     }
     // seed with a random declaration, close under mentions (within the main module)
@@ -692,11 +692,23 @@ pub fn rw_move(p: &Program, rng: &mut Rng) -> Option<(Program, Applied)> {
             }
         }
     }
+    // the new module lives next to main or in a directory of its own (its imports are then spelled relative to
+    // that directory: a module's imports are relative to the module, not to the main module)
+    let subdir = rng.chance(1, 2);
+    let new_file = if subdir { "zmv/moved.oal" } else { "moved.oal" };
     let mut stmts: Vec<Stmt> = Vec::new();
     for s in &p.modules[0].stmts {
-        if let Stmt::Use { target, .. } = s {
+        if let Stmt::Use { target, qual, .. } = s {
             if needed.contains(target) {
-                stmts.push(s.clone());
+                if subdir {
+                    stmts.push(Stmt::Use {
+                        path: format!("../{}", p.modules[*target].file),
+                        target: *target,
+                        qual: qual.clone(),
+                    });
+                } else {
+                    stmts.push(s.clone());
+                }
             }
         }
     }
@@ -705,7 +717,7 @@ pub fn rw_move(p: &Program, rng: &mut Rng) -> Option<(Program, Applied)> {
         q.decls[*d].module = new_mod;
     }
     q.modules.push(Module {
-        file: "moved.oal".into(),
+        file: new_file.into(),
         stmts,
     });
     // main: drop the moved lets, add the import, qualify references from what stays
@@ -718,7 +730,7 @@ pub fn rw_move(p: &Program, rng: &mut Rng) -> Option<(Program, Applied)> {
     q.modules[0].stmts.insert(
         first,
         Stmt::Use {
-            path: "moved.oal".into(),
+            path: new_file.into(),
             target: new_mod,
             qual: Some(qual.clone()),
         },
